@@ -28,6 +28,7 @@ import (
 	"strings"
 
 	"golang.org/x/tools/go/packages"
+	"golang.org/x/tools/go/ssa"
 )
 
 type J = map[string]interface{}
@@ -66,6 +67,8 @@ type mtr struct {
 	funcs   map[types.Object]*ast.FuncDecl // functions and methods of the package with a body
 	touchM  map[*ast.FuncDecl]int          // 0 unknown, 1 in progress / no, 2 yes
 	stack   []*ast.FuncDecl                // inlined callees being translated
+	fnarg   map[types.Object]*ast.FuncDecl // func-typed parameter of an inlined callee -> the function (literal) it was given
+	lits    map[*ast.FuncLit]*ast.FuncDecl // function literals as (anonymous) declarations
 	params  map[types.Object]int
 	nparams int
 	opaque  []string
@@ -241,47 +244,185 @@ func metricsProgs(byPath map[string]*packages.Package, out *Out) {
 	})
 }
 
-// recordCallers: every call site (outside the metrics package and outside tests) of a Record* function that records a
-// query size, with whether the size argument is syntactically a length (len(..), hence >= 0: hypothesis of min_exact)
-func recordCallers(pkgs []*packages.Package, out *Out) {
+// recordCallers: every call site (outside the metrics package and outside tests) of the Record* function that records a
+// query size, with whether the size argument IS a length (hypothesis of min_exact: sizes are >= 0, never the -1
+// sentinel; and the totals are about the true sizes).  Decided on go/ssa by following the value back: the result of
+// the builtin len, a non-negative constant, a conversion / phi / local variable of such values, or a parameter of an
+// unexported function all of whose (static) callers pass such a value.  Arithmetic on a length is not a length.
+func recordCallers(prog *ssa.Program, pkgs []*packages.Package, out *Out) {
+	var fns []*ssa.Function
+	var walk func(f *ssa.Function)
+	seenFn := map[*ssa.Function]bool{}
+	walk = func(f *ssa.Function) {
+		if f == nil || seenFn[f] {
+			return
+		}
+		seenFn[f] = true
+		fns = append(fns, f)
+		for _, a := range f.AnonFuncs {
+			walk(a)
+		}
+	}
 	for _, p := range pkgs {
 		if !isLib(p.PkgPath) && !strings.HasPrefix(p.PkgPath, mod+"/cmd/") {
 			continue
 		}
-		for _, f := range p.Syntax {
-			fname := p.Fset.Position(f.Pos()).Filename
-			if strings.HasSuffix(fname, "_test.go") {
-				continue
-			}
-			ast.Inspect(f, func(n ast.Node) bool {
-				call, ok := n.(*ast.CallExpr)
-				if !ok {
-					return true
-				}
-				sel, ok := call.Fun.(*ast.SelectorExpr)
-				if !ok {
-					return true
-				}
-				fn, _ := p.TypesInfo.Uses[sel.Sel].(*types.Func)
-				if fn == nil || fn.Pkg() == nil || fn.Pkg().Path() != mod+"/pkg/metrics" || fn.Name() != "RecordTokenization" || len(call.Args) < 2 {
-					return true
-				}
-				pos := p.Fset.Position(call.Pos())
-				isLen := false
-				if c2, ok := ast.Unparen(call.Args[1]).(*ast.CallExpr); ok {
-					if id, ok := c2.Fun.(*ast.Ident); ok {
-						if b, ok := p.TypesInfo.Uses[id].(*types.Builtin); ok && b.Name() == "len" {
-							isLen = true
+		sp := prog.Package(p.Types)
+		if sp == nil {
+			continue
+		}
+		for _, m := range sp.Members {
+			switch x := m.(type) {
+			case *ssa.Function:
+				walk(x)
+			case *ssa.Type:
+				for _, T := range []types.Type{x.Type(), types.NewPointer(x.Type())} {
+					ms := prog.MethodSets.MethodSet(T)
+					for i := 0; i < ms.Len(); i++ {
+						if f := prog.MethodValue(ms.At(i)); f != nil && f.Pkg == sp {
+							walk(f)
 						}
 					}
 				}
-				if tv, ok := p.TypesInfo.Types[call.Args[1]]; ok && tv.Value != nil && tv.Value.Kind() == constant.Int && constant.Sign(tv.Value) >= 0 {
-					isLen = true
+			}
+		}
+	}
+	// static call sites of every function, and the functions used as values (unknown callers)
+	sites := map[*ssa.Function][]ssa.CallInstruction{}
+	asValue := map[*ssa.Function]bool{}
+	for _, f := range fns {
+		for _, b := range f.Blocks {
+			for _, ins := range b.Instrs {
+				var callee ssa.Value
+				if ci, ok := ins.(ssa.CallInstruction); ok {
+					callee = ci.Common().Value
+					if sc := ci.Common().StaticCallee(); sc != nil {
+						sites[sc] = append(sites[sc], ci)
+					}
 				}
+				for _, op := range ins.Operands(nil) {
+					if op != nil && *op != nil && *op != callee {
+						if fn := funcOf(*op); fn != nil {
+							if _, isMC := ins.(*ssa.MakeClosure); !isMC {
+								asValue[fn] = true
+							}
+						}
+					}
+				}
+			}
+		}
+	}
+	var isLength func(v ssa.Value, depth int, seen map[ssa.Value]bool) (bool, string)
+	isLength = func(v ssa.Value, depth int, seen map[ssa.Value]bool) (bool, string) {
+		if v == nil || depth > 8 {
+			return false, "?"
+		}
+		if seen[v] {
+			return true, "" // a cycle of phis adds nothing
+		}
+		seen[v] = true
+		switch x := v.(type) {
+		case *ssa.Const:
+			if x.Value != nil && x.Value.Kind() == constant.Int && constant.Sign(x.Value) >= 0 {
+				return true, "constant " + x.Value.String()
+			}
+			return false, "constant " + x.String()
+		case *ssa.Call:
+			if bi, ok := x.Common().Value.(*ssa.Builtin); ok && bi.Name() == "len" {
+				return true, "len(..)"
+			}
+			return false, "result of " + x.Common().Value.Name()
+		case *ssa.Convert:
+			if b, ok := x.Type().Underlying().(*types.Basic); ok && b.Info()&types.IsInteger != 0 {
+				return isLength(x.X, depth+1, seen)
+			}
+		case *ssa.ChangeType:
+			return isLength(x.X, depth+1, seen)
+		case *ssa.Phi:
+			why := ""
+			for _, e := range x.Edges {
+				ok, w := isLength(e, depth+1, seen)
+				if !ok {
+					return false, w
+				}
+				if w != "" {
+					why = w
+				}
+			}
+			return true, why
+		case *ssa.UnOp:
+			if x.Op == token.MUL {
+				// a local variable whose address is taken: every store to it
+				if al, ok := x.X.(*ssa.Alloc); ok && al.Referrers() != nil {
+					why, n := "", 0
+					for _, r := range *al.Referrers() {
+						if st, ok := r.(*ssa.Store); ok && st.Addr == al {
+							ok, w := isLength(st.Val, depth+1, seen)
+							if !ok {
+								return false, w
+							}
+							why = w
+							n++
+						} else if _, isLoad := r.(*ssa.UnOp); !isLoad {
+							if _, isDbg := r.(*ssa.DebugRef); !isDbg {
+								return false, "local variable that escapes"
+							}
+						}
+					}
+					return n > 0, why
+				}
+			}
+		case *ssa.Parameter:
+			f := x.Parent()
+			idx := -1
+			for i, p := range f.Params {
+				if p == x {
+					idx = i
+				}
+			}
+			if idx < 0 || token.IsExported(f.Name()) || asValue[f] || len(sites[f]) == 0 {
+				return false, "parameter " + x.Name() + " of " + f.Name()
+			}
+			why := ""
+			for _, ci := range sites[f] {
+				args := ci.Common().Args
+				if idx >= len(args) {
+					return false, "parameter " + x.Name() + " of " + f.Name()
+				}
+				ok, w := isLength(args[idx], depth+1, seen)
+				if !ok {
+					return false, w
+				}
+				why = w
+			}
+			return true, why + " through " + f.Name()
+		case *ssa.BinOp:
+			return false, "arithmetic (" + x.Op.String() + ")"
+		}
+		return false, fmt.Sprintf("%T", v)
+	}
+	for _, f := range fns {
+		for _, b := range f.Blocks {
+			for _, ins := range b.Instrs {
+				ci, ok := ins.(ssa.CallInstruction)
+				if !ok {
+					continue
+				}
+				sc := ci.Common().StaticCallee()
+				if sc == nil || sc.Pkg == nil || sc.Pkg.Pkg.Path() != mod+"/pkg/metrics" || sc.Name() != "RecordTokenization" || len(ci.Common().Args) < 2 {
+					continue
+				}
+				if f.Pkg != nil && f.Pkg.Pkg.Path() == mod+"/pkg/metrics" {
+					continue
+				}
+				pos := prog.Fset.Position(ins.Pos())
+				if strings.HasSuffix(pos.Filename, "_test.go") {
+					continue
+				}
+				okLen, why := isLength(ci.Common().Args[1], 0, map[ssa.Value]bool{})
 				out.MetricsCallers = append(out.MetricsCallers, J{"pos": fmt.Sprintf("%s:%d", shortFile(pos.Filename), pos.Line),
-					"size_arg": types.ExprString(call.Args[1]), "nonneg": isLen})
-				return true
-			})
+					"size_arg": why, "nonneg": okLen, "func": fnName(rootFn(f))})
+			}
 		}
 	}
 	sort.Slice(out.MetricsCallers, func(i, j int) bool {
@@ -289,21 +430,54 @@ func recordCallers(pkgs []*packages.Package, out *Out) {
 	})
 }
 
-// publicNames: field of the metrics struct -> field of the public snapshot it is reported in, read off the
-// snapshot functions (GetStats / GetMetrics): `v := atomic.LoadInt64(&globalMetrics.F)` ... `Stats{K: v}`,
-// `Snapshot{K: atomic.LoadInt64(&globalMetrics.F)}`, `Snapshot{K: globalMetrics.F}`, and a `range globalMetrics.F`
-// that fills `snapshot.K[...]`.
+// publicNames: field of the metrics struct -> field of the public snapshot it is reported in, read off the snapshot
+// functions (GetStats / GetMetrics) and the same-package functions they call: WHEREVER a value read from g.F
+// (atomic load, plain read, through a local, a conversion or a one-argument helper) is published in a field K of the
+// snapshot type — a key of a composite literal `Stats{K: v}`, an assignment `stats.K = v`, or a
+// `range g.F { snapshot.K[...] = ... }`.
 func publicNames(p *packages.Package, vars []types.Object, funcs map[types.Object]*ast.FuncDecl) map[string]string {
 	res := map[string]string{}
 	t := newMtr(p, vars, funcs)
-	for _, f := range p.Syntax {
-		for _, d := range f.Decls {
+	publish := func(f, k string) {
+		if _, dup := res[f]; !dup {
+			res[f] = k
+		}
+	}
+	for _, file := range p.Syntax {
+		for _, d := range file.Decls {
 			fd, ok := d.(*ast.FuncDecl)
 			if !ok || fd.Recv != nil || fd.Body == nil || (fd.Name.Name != "GetStats" && fd.Name.Name != "GetMetrics") {
 				continue
 			}
+			// the snapshot type: what the function returns
+			var snap types.Type
+			if fn, _ := p.TypesInfo.Defs[fd.Name].(*types.Func); fn != nil {
+				if r := fn.Type().(*types.Signature).Results(); r.Len() > 0 {
+					snap = deref(r.At(0).Type())
+				}
+			}
+			isSnap := func(ty types.Type) bool { return snap == nil || (ty != nil && types.Identical(deref(ty), snap)) }
+			// the function and what it calls in the package (two levels)
+			scan := []*ast.FuncDecl{fd}
+			seen := map[*ast.FuncDecl]bool{fd: true}
+			for level, from := 0, 0; level < 2; level++ {
+				to := len(scan)
+				for _, g := range scan[from:to] {
+					ast.Inspect(g.Body, func(n ast.Node) bool {
+						if call, ok := n.(*ast.CallExpr); ok {
+							if c := t.calleeOf(call); c != nil && c.Body != nil && !seen[c] {
+								seen[c] = true
+								scan = append(scan, c)
+							}
+						}
+						return true
+					})
+				}
+				from = to
+			}
 			local := map[types.Object]string{}
-			fieldOfValue := func(e ast.Expr) (string, bool) {
+			var fieldOfValue func(e ast.Expr) (string, bool)
+			fieldOfValue = func(e ast.Expr) (string, bool) {
 				e = ast.Unparen(e)
 				if id, ok := e.(*ast.Ident); ok {
 					f, ok := local[p.TypesInfo.Uses[id]]
@@ -312,50 +486,88 @@ func publicNames(p *packages.Package, vars []types.Object, funcs map[types.Objec
 				if op, f, _, ok := t.atomicCall(e); ok && op == "load" {
 					return f, true
 				}
-				if _, isSel := e.(*ast.SelectorExpr); isSel {
+				if call, ok := e.(*ast.CallExpr); ok && len(call.Args) == 1 {
+					if tv, ok := p.TypesInfo.Types[call.Fun]; ok && tv.IsType() {
+						return fieldOfValue(call.Args[0]) // conversion
+					}
+					if t.calleeOf(call) != nil {
+						if f, ok := t.fieldOf(call.Args[0]); ok { // load helper: get(&g.F)
+							return f, true
+						}
+					}
+				}
+				if isValueForm(e) {
 					return t.fieldOf(e)
 				}
 				return "", false
 			}
-			ast.Inspect(fd.Body, func(n ast.Node) bool {
-				switch x := n.(type) {
-				case *ast.AssignStmt:
-					if len(x.Lhs) == 1 && len(x.Rhs) == 1 {
-						if id, ok := x.Lhs[0].(*ast.Ident); ok && x.Tok == token.DEFINE {
-							if f, ok := fieldOfValue(x.Rhs[0]); ok {
-								local[p.TypesInfo.Defs[id]] = f
-							}
-						}
-					}
-				case *ast.CompositeLit:
-					for _, el := range x.Elts {
-						if kv, ok := el.(*ast.KeyValueExpr); ok {
-							if k, ok := kv.Key.(*ast.Ident); ok {
-								if f, ok := fieldOfValue(kv.Value); ok {
-									if _, dup := res[f]; !dup {
-										res[f] = k.Name
-									}
+			for _, g := range scan {
+				ast.Inspect(g.Body, func(n ast.Node) bool {
+					switch x := n.(type) {
+					case *ast.ValueSpec:
+						for i, id := range x.Names {
+							if i < len(x.Values) {
+								if f, ok := fieldOfValue(x.Values[i]); ok {
+									local[p.TypesInfo.Defs[id]] = f
 								}
 							}
 						}
-					}
-				case *ast.RangeStmt:
-					if f, ok := t.fieldOf(x.X); ok {
-						// for k, v := range globalMetrics.F { snapshot.K[k] = v }
-						ast.Inspect(x.Body, func(m ast.Node) bool {
-							if as, ok := m.(*ast.AssignStmt); ok && len(as.Lhs) == 1 {
-								if ix, ok := as.Lhs[0].(*ast.IndexExpr); ok {
-									if sel, ok := ix.X.(*ast.SelectorExpr); ok {
-										res[f] = sel.Sel.Name
-									}
-								}
-							}
+					case *ast.AssignStmt:
+						if len(x.Lhs) != len(x.Rhs) {
 							return true
-						})
+						}
+						for i := range x.Lhs {
+							f, ok := fieldOfValue(x.Rhs[i])
+							if !ok {
+								continue
+							}
+							switch l := ast.Unparen(x.Lhs[i]).(type) {
+							case *ast.Ident:
+								obj := p.TypesInfo.Defs[l]
+								if obj == nil {
+									obj = p.TypesInfo.Uses[l]
+								}
+								if obj != nil {
+									local[obj] = f
+								}
+							case *ast.SelectorExpr:
+								// stats.K = v
+								if tv, ok := p.TypesInfo.Types[l.X]; ok && isSnap(tv.Type) && x.Tok == token.ASSIGN {
+									publish(f, l.Sel.Name)
+								}
+							}
+						}
+					case *ast.CompositeLit:
+						if tv, ok := p.TypesInfo.Types[x]; ok && !isSnap(tv.Type) {
+							return true
+						}
+						for _, el := range x.Elts {
+							if kv, ok := el.(*ast.KeyValueExpr); ok {
+								if k, ok := kv.Key.(*ast.Ident); ok {
+									if f, ok := fieldOfValue(kv.Value); ok {
+										publish(f, k.Name)
+									}
+								}
+							}
+						}
+					case *ast.RangeStmt:
+						if f, ok := t.fieldOf(x.X); ok {
+							// for k, v := range g.F { snapshot.K[k] = v }
+							ast.Inspect(x.Body, func(m ast.Node) bool {
+								if as, ok := m.(*ast.AssignStmt); ok && len(as.Lhs) == 1 {
+									if ix, ok := as.Lhs[0].(*ast.IndexExpr); ok {
+										if sel, ok := ix.X.(*ast.SelectorExpr); ok {
+											res[f] = sel.Sel.Name
+										}
+									}
+								}
+								return true
+							})
+						}
 					}
-				}
-				return true
-			})
+					return true
+				})
+			}
 		}
 	}
 	return res
@@ -363,7 +575,7 @@ func publicNames(p *packages.Package, vars []types.Object, funcs map[types.Objec
 
 func newMtr(p *packages.Package, vars []types.Object, funcs map[types.Object]*ast.FuncDecl) *mtr {
 	return &mtr{p: p, gvars: gvarPrefixes(vars), alias: map[types.Object]types.Object{}, ptr: map[types.Object]string{}, funcs: funcs,
-		touchM: map[*ast.FuncDecl]int{}, params: map[types.Object]int{}, env: map[types.Object]interface{}{}, regs: map[types.Object]int{}}
+		touchM: map[*ast.FuncDecl]int{}, fnarg: map[types.Object]*ast.FuncDecl{}, lits: map[*ast.FuncLit]*ast.FuncDecl{}, params: map[types.Object]int{}, env: map[types.Object]interface{}{}, regs: map[types.Object]int{}}
 }
 
 func paramKind(t types.Type) string {
@@ -401,7 +613,7 @@ func translateRecord(p *packages.Package, short string, vars []types.Object, fun
 			}
 		}
 	}
-	mp.Sections = t.block(stmts, nil, "", false)
+	mp.Sections = t.block(stmts, nil, "", false, true)
 	mp.Opaque = t.opaque
 	return mp
 }
@@ -624,10 +836,31 @@ func (t *mtr) mentionsGvarBare(n ast.Node) bool {
 
 // calleeOf: the same-package function or method (with a body) a call expression statically calls
 func (t *mtr) calleeOf(call *ast.CallExpr) *ast.FuncDecl {
+	return t.funcValue(call.Fun)
+}
+
+// litDecl: a function literal as an anonymous declaration (one per literal: identity is used by the recursion guard)
+func (t *mtr) litDecl(lit *ast.FuncLit) *ast.FuncDecl {
+	if d, ok := t.lits[lit]; ok {
+		return d
+	}
+	d := &ast.FuncDecl{Type: lit.Type, Body: lit.Body}
+	t.lits[lit] = d
+	return d
+}
+
+// funcValue: the function an expression denotes, when that is known statically: a same-package function / method, a
+// function literal, or a func-typed parameter of an inlined callee bound to one of these at the call site
+func (t *mtr) funcValue(e ast.Expr) *ast.FuncDecl {
 	var fobj types.Object
-	switch f := ast.Unparen(call.Fun).(type) {
+	switch f := ast.Unparen(e).(type) {
+	case *ast.FuncLit:
+		return t.litDecl(f)
 	case *ast.Ident:
 		fobj = t.p.TypesInfo.Uses[f]
+		if d, ok := t.fnarg[fobj]; ok {
+			return d
+		}
 	case *ast.SelectorExpr:
 		fobj = t.p.TypesInfo.Uses[f.Sel]
 	}
@@ -938,8 +1171,20 @@ func (t *mtr) inline(s ast.Stmt, call *ast.CallExpr, fd *ast.FuncDecl, ctx inter
 	}
 	// evaluate the bindings in the caller's environment, then install them
 	newPtr, newAlias, newEnv := map[types.Object]string{}, map[types.Object]types.Object{}, map[types.Object]interface{}{}
+	newFn := map[types.Object]*ast.FuncDecl{}
 	for _, b := range bs {
 		arg := ast.Unparen(b.arg)
+		if b.obj != nil {
+			if _, isFunc := b.obj.Type().Underlying().(*types.Signature); isFunc {
+				// a function handed to the callee: its body runs where the callee calls the parameter
+				fv := t.funcValue(arg)
+				if fv == nil {
+					return fail()
+				}
+				newFn[b.obj] = fv
+				continue
+			}
+		}
 		if u, ok := arg.(*ast.UnaryExpr); ok && u.Op == token.AND {
 			if id, ok := ast.Unparen(u.X).(*ast.Ident); ok {
 				arg = id // &g for a struct-valued metrics variable
@@ -985,9 +1230,15 @@ func (t *mtr) inline(s ast.Stmt, call *ast.CallExpr, fd *ast.FuncDecl, ctx inter
 	for k, v := range newEnv {
 		t.env[k] = v
 	}
+	for k, v := range newFn {
+		t.fnarg[k] = v
+	}
 	t.stack = append(t.stack, fd)
-	out := t.block(fd.Body.List, ctx, locked, true)
+	out := t.block(fd.Body.List, ctx, locked, true, true)
 	t.stack = t.stack[:len(t.stack)-1]
+	for k := range newFn {
+		delete(t.fnarg, k)
+	}
 	for k := range newPtr {
 		delete(t.ptr, k)
 	}
@@ -997,9 +1248,23 @@ func (t *mtr) inline(s ast.Stmt, call *ast.CallExpr, fd *ast.FuncDecl, ctx inter
 	return out
 }
 
+// deferredUnlock: s is `defer g.M.Unlock()`
+func (t *mtr) deferredUnlock(s ast.Stmt) (field string, ok bool) {
+	ds, isD := s.(*ast.DeferStmt)
+	if !isD {
+		return "", false
+	}
+	m, f, ok := t.lockCall(&ast.ExprStmt{X: ds.Call})
+	if !ok || m != "Unlock" {
+		return "", false
+	}
+	return f, true
+}
+
 // block: retOK = stmts is the whole body of an inlined callee (a trailing `return`, and `return` inside a trailing
-// read-modify-write group, end the callee)
-func (t *mtr) block(stmts []ast.Stmt, ctx interface{}, locked string, retOK bool) []MSection {
+// read-modify-write group, end the callee); fnTop = stmts are the statements of a function body (of the Record
+// function or of an inlined callee), so that a deferred unlock releases at the end of stmts
+func (t *mtr) block(stmts []ast.Stmt, ctx interface{}, locked string, retOK bool, fnTop bool) []MSection {
 	var out []MSection
 	for i := 0; i < len(stmts); i++ {
 		s := stmts[i]
@@ -1042,9 +1307,25 @@ func (t *mtr) block(stmts []ast.Stmt, ctx interface{}, locked string, retOK bool
 					}
 				}
 				if j < len(stmts) {
-					out = append(out, t.block(stmts[i+1:j], ctx, f, false)...)
+					out = append(out, t.block(stmts[i+1:j], ctx, f, false, false)...)
 					i = j
 					continue
+				}
+				// g.M.Lock(); ...; defer g.M.Unlock(); ...  at the top level of a function body: the critical section is
+				// everything from the Lock to the end of the body (the deferred unlock runs when the function returns)
+				if fnTop {
+					d := i + 1
+					for ; d < len(stmts); d++ {
+						if f2, ok2 := t.deferredUnlock(stmts[d]); ok2 && f2 == f {
+							break
+						}
+					}
+					if d < len(stmts) {
+						region := append(append([]ast.Stmt{}, stmts[i+1:d]...), stmts[d+1:]...)
+						out = append(out, t.block(region, ctx, f, retOK, true)...) // still runs to the end of the function body
+						i = len(stmts)
+						continue
+					}
 				}
 			}
 			out = append(out, t.unknown(s, ctx, f))
@@ -1079,13 +1360,21 @@ func (t *mtr) block(stmts []ast.Stmt, ctx interface{}, locked string, retOK bool
 		}
 		if is, ok := s.(*ast.IfStmt); ok && is.Init == nil && !t.shared(is.Cond) {
 			if c, ok := t.cond(is.Cond, nil); ok {
-				out = append(out, t.block(is.Body.List, jand(ctx, c), locked, false)...)
+				// if c { ...; return } at the top level of a function body: the rest of the body runs only when c is false
+				if n := len(is.Body.List); fnTop && is.Else == nil && n > 0 {
+					if rs, isRet := is.Body.List[n-1].(*ast.ReturnStmt); isRet && len(rs.Results) == 0 {
+						out = append(out, t.block(is.Body.List[:n-1], jand(ctx, c), locked, false, false)...)
+						out = append(out, t.block(stmts[i+1:], jand(ctx, jnot(c)), locked, retOK, fnTop)...)
+						return out
+					}
+				}
+				out = append(out, t.block(is.Body.List, jand(ctx, c), locked, false, false)...)
 				switch e := is.Else.(type) {
 				case nil:
 				case *ast.BlockStmt:
-					out = append(out, t.block(e.List, jand(ctx, jnot(c)), locked, false)...)
+					out = append(out, t.block(e.List, jand(ctx, jnot(c)), locked, false, false)...)
 				default:
-					out = append(out, t.block([]ast.Stmt{e}, jand(ctx, jnot(c)), locked, false)...)
+					out = append(out, t.block([]ast.Stmt{e}, jand(ctx, jnot(c)), locked, false, false)...)
 				}
 				continue
 			}
